@@ -47,6 +47,8 @@ type Engine struct {
 	prop     string
 	regionRef map[string]string // leaf region -> "ref" | "map:<key sort>" when it stores references
 	globalIDs map[string]int
+	deadReturns []string
+	overlayFiles map[string]string // mutant overlays (path -> replacement file), reused when replaying
 }
 
 func newEngine() *Engine {
